@@ -502,6 +502,102 @@ theorem C16_witness_rejected_leak :
     let c : Cfg := Cfg.simple true .absent [.okPlain, .okSecure]
     held (connect Facts.before c Sh.init true).1 = 2 := by decide
 
+/-! ### verifying client: upstream lists with different names, kinds and certificates (`poltls`) -/
+
+/-- **usable is a function of the upstream alone**: under required security and verification an upstream completes a
+    handshake that meets the requirement iff it is live and its certificate carries the name it is addressed by —
+    whatever was dialled before it. -/
+theorem C16_usable_intrinsic (d : UpDesc) (live : Bool) : usable true (d.kind live) = d.usable live := by
+  unfold UpDesc.kind UpDesc.usable
+  cases live <;> cases h : certCovers d.cert d.byName <;> simp [usable]
+  by_cases hc : d.carrier = "starttls" <;> simp [hc]
+
+theorem firstUsable_descScripts (lost : Option Nat) (after : Bool) (ds : List UpDesc) (i : Nat) :
+    firstUsable true (if after then 1 else 0) (descScripts lost ds i) = firstDesc lost after ds i := by
+  induction ds generalizing i with
+  | nil => simp [descScripts, firstUsable, firstDesc]
+  | cons d ds ih =>
+    simp only [descScripts, firstUsable, firstDesc, ih]
+    cases after <;> simp [kindAt, C16_usable_intrinsic]
+
+theorem firstDesc_spec (ds : List UpDesc) (i j : Nat) (h : firstDesc none false ds i = some j) :
+    (∃ d, ds[j]? = some d ∧ d.usable d.live = true) ∧ ∀ k d, k < j → ds[k]? = some d → d.usable d.live = false := by
+  induction ds generalizing i j with
+  | nil => simp [firstDesc] at h
+  | cons d ds ih =>
+    simp only [firstDesc, Bool.false_and, Bool.not_false, Bool.and_true] at h
+    by_cases hu : d.usable d.live = true
+    · simp only [hu, if_true, Option.some.injEq] at h
+      subst h
+      exact ⟨⟨d, by simp, hu⟩, by intro k d' hk; omega⟩
+    · simp only [hu, Bool.false_eq_true, if_false, Option.map_eq_some_iff] at h
+      obtain ⟨j', hj', rfl⟩ := h
+      obtain ⟨⟨d0, h0, h1⟩, h2⟩ := ih (i + 1) j' hj'
+      refine ⟨⟨d0, by simpa using h0, h1⟩, ?_⟩
+      intro k d' hk hd
+      cases k with
+      | zero => simp at hd; subst hd; simpa using hu
+      | succ k => exact h2 k d' (by omega) (by simpa using hd)
+
+/-- **ordered fail-over on these lists**: the first upstream in list order that is live and verifiable under its own
+    name serves the local connection; with none, the connection fails. -/
+theorem C16_verified_failover (ds : List UpDesc) :
+    match firstDesc none false ds 0 with
+    | some j => (connect Facts.current (descCfg ds none) Sh.init true).2.1 = .up j
+    | none => (connect Facts.current (descCfg ds none) Sh.init true).2.1 = .fail := by
+  have h := C16_ordered_failover (descCfg ds none) Sh.init rfl rfl rfl
+  have e : firstUsable (descCfg ds none).mustSecure Sh.init.phase (descCfg ds none).ups = firstDesc none false ds 0 :=
+    firstUsable_descScripts none false ds 0
+  rw [e] at h
+  cases hf : firstDesc none false ds 0 with
+  | none => rw [hf] at h; obtain ⟨sh', heq, _⟩ := h; simp [heq]
+  | some j => rw [hf] at h; obtain ⟨sh', id, heq, _⟩ := h; simp [heq]
+
+/-- **the reversed list gives the mirrored answer**: it is served by the LAST upstream of the original list that is live
+    and verifiable under its own name (position `length - 1 - k`), every later one being unusable. -/
+theorem C16_verified_mirror (ds : List UpDesc) (k : Nat) (h : firstDesc none false ds.reverse 0 = some k) :
+    (connect Facts.current (descCfg ds.reverse none) Sh.init true).2.1 = .up k ∧
+    ∃ d, ds[ds.length - 1 - k]? = some d ∧ d.usable d.live = true ∧
+      ∀ m d', ds.length - 1 - k < m → ds[m]? = some d' → d'.usable d'.live = false := by
+  refine ⟨by have := C16_verified_failover ds.reverse; rw [h] at this; exact this, ?_⟩
+  obtain ⟨⟨d, hd, hu⟩, hbefore⟩ := firstDesc_spec ds.reverse 0 k h
+  have hk : k < ds.length := by
+    have := (List.getElem?_eq_some_iff.mp hd).1
+    simpa using this
+  refine ⟨d, ?_, hu, ?_⟩
+  · rw [List.getElem?_reverse hk] at hd; exact hd
+  · intro m d' hm hd'
+    have hml : m < ds.length := (List.getElem?_eq_some_iff.mp hd').1
+    have hr : ds.reverse[ds.length - 1 - m]? = some d' := by
+      rw [List.getElem?_reverse (by omega)]
+      have : ds.length - 1 - (ds.length - 1 - m) = m := by omega
+      rw [this]; exact hd'
+    exact hbefore (ds.length - 1 - m) d' (by omega) hr
+
+/-- **reconnect on these lists**: after the session is lost — the serving upstream gone for good (`lost`, restart) or
+    only its carrier cut — the next local connection is served by the first upstream in list order that is then live
+    and verifiable under its own name, in any state the first connections left behind. -/
+theorem C16_verified_reconnect (ds : List UpDesc) (lost : Option Nat) (sh : Sh) (hb : sh.blocked = false) (j : Nat) :
+    (firstDesc lost true ds 0 = some j →
+      (connect Facts.current (descCfg ds lost) (envRestart sh) true).2.1 = .up j) ∧
+    (sh.phase = 0 → firstDesc lost false ds 0 = some j →
+      (connect Facts.current (descCfg ds lost) (envCut sh) true).2.1 = .up j) := by
+  constructor
+  · intro h
+    have := (C16_reconnect_after_loss (descCfg ds lost) sh true rfl hb).2 j
+    simp only [if_true] at this
+    apply this
+    have e := firstUsable_descScripts lost true ds 0
+    simp only [if_true] at e
+    simpa [descCfg, envRestart, envCut] using e.trans h
+  · intro hp h
+    have := (C16_reconnect_after_loss (descCfg ds lost) sh false rfl hb).2 j
+    simp only [Bool.false_eq_true, if_false] at this
+    apply this
+    have e := firstUsable_descScripts lost false ds 0
+    simp only [Bool.false_eq_true, if_false] at e
+    simpa [descCfg, envCut, hp] using e.trans h
+
 /-! ### non-vacuity -/
 
 -- failover past a refused, a silent and a garbage-answering upstream to the fourth one
@@ -521,8 +617,24 @@ example : let c : Cfg := Cfg.simple false .absent [.okPlain]
       .thread 2 .enter, .thread 1 .enter, .thread 1 .stream, .thread 2 .stream]
     s.pcs = [Pc.done (.up 0) (some 0), Pc.done (.up 0) (some 1), Pc.done (.up 0) (some 1)] ∧ held s.sh = 1 ∧ s.sh.dials = [0, 0] := by decide
 
+-- verifying client: dead 127.0.0.1 first, healthy `localhost` second — served by the second; reversed: by the first
+example : let ds : List UpDesc := [⟨"tcptls", false, .both, false⟩, ⟨"tcptls", true, .nameonly, true⟩]
+    (connect Facts.current (descCfg ds none) Sh.init true).2.1 = .up 1 ∧
+    (connect Facts.current (descCfg ds.reverse none) Sh.init true).2.1 = .up 0 := by decide
+-- a live upstream whose certificate does not carry the name it is addressed by is passed over
+example : let ds : List UpDesc := [⟨"wss", true, .iponly, true⟩, ⟨"starttls", false, .iponly, true⟩]
+    (connect Facts.current (descCfg ds none) Sh.init true).2.1 = .up 1 := by decide
+-- StartTLS upstream serves, goes away; the TLS socket with the other name takes over
+example : let ds : List UpDesc := [⟨"starttls", false, .both, true⟩, ⟨"tcptls", true, .nameonly, true⟩]
+    let c := descCfg ds (some 0)
+    (connect Facts.current c (envRestart (connect Facts.current c Sh.init true).1) true).2.1 = .up 1 := by decide
+
 end SA.Policy
 
+#print axioms SA.Policy.C16_usable_intrinsic
+#print axioms SA.Policy.C16_verified_failover
+#print axioms SA.Policy.C16_verified_mirror
+#print axioms SA.Policy.C16_verified_reconnect
 #print axioms SA.Policy.C16_current_facts
 #print axioms SA.Policy.C16_shape
 #print axioms SA.Policy.C16_direct_first
